@@ -8,17 +8,17 @@ def plan(tier, seed):
     JMAX = 4 if not dense else 6
     gs = [g for g in helper_groups(tier) if g.gid.startswith('mypad[periodic')]
     for d in (3, 2):
-        for dl in [2 ** j for j in range(JMAX)]:
+        for j, dl in enumerate([2 ** j for j in range(JMAX)]):
             gs.append(Group('afb1d_atrous[dim=%d,dilation=%d]' % (d, dl), G.g_atrous1d, (d, dl), functions=[(LL, 'afb1d_atrous')],
-                            replay=rp('swt_forward')))
-    for dl in [2 ** j for j in range(JMAX)]:
-        gs.append(Group('afb2d_atrous[dilation=%d]' % dl, G.g_atrous2d, (dl,), functions=[(LL, 'afb2d_atrous')], replay=rp('swt_forward')))
+                            replay=rp('swt_forward', minJ=j + 1)))
+    for j, dl in enumerate([2 ** j for j in range(JMAX)]):
+        gs.append(Group('afb2d_atrous[dilation=%d]' % dl, G.g_atrous2d, (dl,), functions=[(LL, 'afb2d_atrous')], replay=rp('swt_forward', minJ=j + 1)))
     gs.append(Group('prep_filt_afb2d[4]', G.g_prep, ('prep_filt_afb2d', 4), functions=[(LL, 'prep_filt_afb2d')]))
     for mode in (None, 'periodization', 'periodic', 'per'):
         for wf in ('wavelet', 'tuple4'):
             gs.append(Group('SWTForward[J<=%d,mode=%s,%s]' % (JMAX, mode, wf), G.g_swt_module, (JMAX, mode, wf), level='bounded-in-J',
                             functions=[(T2, 'SWTForward.__init__'), (T2, 'SWTForward.forward')],
-                            replay=rp('swt_forward', mode=mode)))
+                            replay=rp('swt_forward', mode=mode, minJ=3)))
     gs.append(Group('canary:wrong-dilation', G.g_atrous1d, (3, 2), {'canary': True}, canary=True))
     jobs = [{'fn': 'swt_forward', 'cfg': {'mode': m}, 'grid': {'J': [1, 2, 3], 'Lc2': [1, 2, 4] + ([7] if dense else []), 'mh': [1, 3], 'mw': [2]}}
             for m in (None, 'periodic')]
